@@ -46,7 +46,10 @@ RULE_ADDED = (
               ' '
               'Round 13: elements declaring a void tweak (empty string, null, false, 0) and sig'
               'ned with the untweaked certifier key - never valid, whatever the loader makes of'
-              ' them. ')
+              ' them. '
+              ' '
+              'Round 15: certificate objects built twice from the same dict: same verdicts as f'
+              'rom the file, dict unchanged. ')
 RULE = RULE + " " + RULE_ADDED.strip()
 ASSUMPTIONS = [
     "oracle: pv/oracle/certv1.py (own secp256k1 arithmetic, ECDSA by cryptography/OpenSSL); "
